@@ -87,6 +87,17 @@ inductive Fin
 
 def cbIf (d : Bool) (c : Cb) : List Cb := if d then [c] else []
 
+/-- `for key in to_remove { if let Some(value) = map.remove(&key) { if dispatch { on_remove(key, map, value) } } }`
+(client `on_event` take / drop arms; hosted `MapDlState::{take,drop}`) -/
+def removeSeq (disp : Bool) : AMap → List Int → AMap × List Cb
+  | m, [] => (m, [])
+  | m, k :: ks =>
+    match look k m with
+    | some v => ((removeSeq disp (del k m) ks).1, cbIf disp (.remove k v (del k m)) ++ (removeSeq disp (del k m) ks).2)
+    | none => removeSeq disp m ks
+
+def keys (m : AMap) : List Int := m.map (·.1)
+
 /-- `on_event(map, lifecycle, event, dispatch)` -/
 def cEvent (m : AMap) (e : Msg) (dispatch : Bool) : AMap × List Cb :=
   match e with
@@ -96,14 +107,14 @@ def cEvent (m : AMap) (e : Msg) (dispatch : Bool) : AMap × List Cb :=
     | some v => (del k m, cbIf dispatch (.remove k v (del k m)))
     | none => (m, [])
   | .clear =>
-    -- `if dispatch { let old_map = mem::take(map); lifecycle.on_clear(old_map) }`  (F5: nothing otherwise)
-    if dispatch then ([], [.clear m]) else (m, [])
+    -- `let old_map = mem::take(map); if dispatch { lifecycle.on_clear(old_map) }`
+    ([], cbIf dispatch (.clear m))
   | .take n =>
-    -- the first `n` entries are re-inserted, `on_remove` for the rest with the map of the kept entries; no `dispatch` test
-    (m.take n, (m.drop n).map fun p => .remove p.1 p.2 (m.take n))
+    -- `to_remove = map.keys().skip(cnt)`; removed one at a time, `on_remove` only `if dispatch`
+    removeSeq dispatch m ((keys m).drop n)
   | .drop n =>
-    -- `on_remove` for the first `n` while the map is still empty, then the rest is re-inserted; no `dispatch` test
-    (m.drop n, (m.take n).map fun p => .remove p.1 p.2 [])
+    -- `to_remove = map.keys().take(cnt)`
+    removeSeq dispatch m ((keys m).take n)
 
 inductive CSt
   | unlinked | linked (m : AMap) | synced (m : AMap)
@@ -160,16 +171,6 @@ inductive Dl
 
 def Dl.isLinked : Dl → Bool
   | .linked => true | .synced => true | _ => false
-
-/-- `for k in to_remove { if let Some(v) = map.remove(&k) { removed.push(lifecycle.on_remove(k, map, v)) } }` -/
-def removeSeq (disp : Bool) : AMap → List Int → AMap × List Cb
-  | m, [] => (m, [])
-  | m, k :: ks =>
-    match look k m with
-    | some v => ((removeSeq disp (del k m) ks).1, cbIf disp (.remove k v (del k m)) ++ (removeSeq disp (del k m) ks).2)
-    | none => removeSeq disp m ks
-
-def keys (m : AMap) : List Int := m.map (·.1)
 
 /-- `MapDlState::{update,remove,clear,take,drop}` with `lifecycle = if disp then Some(..) else None` -/
 def hEvent (m : AMap) (e : Msg) (disp : Bool) : AMap × List Cb :=
